@@ -295,6 +295,7 @@ var pwPool = []string{
 	strings.Repeat("a", 63), strings.Repeat("a", 64), strings.Repeat("a", 65), strings.Repeat("b", 65),
 	"Secret", "secret ", " secret", "secre", "secrett", strings.Repeat("long-password-", 300), "\x00", "\x00\x00",
 	"correct horse battery staple", "pässwörd", "p", "pa",
+	strings.Repeat("k", 1023), strings.Repeat("k", 1024), strings.Repeat("k", 1025), "\tsecret", "secret\r\n", "\u00a0secret",
 }
 
 // GenPassword draws a password: mostly from the pool, sometimes derived (so near misses
